@@ -26,7 +26,7 @@ CHECKS = {
          "Liveness restated as bounded progress: every match of every zero-heavy history returns within 2*10^6 shared-memory steps, leaves no displayed quantity when unfilled, and executes at least min(requested, displayed).",
          "Cannot prove termination; generators keep legitimate matches below 10^4 replenishment rounds.", "4/C06"),
  "C07": ("H-seq", "exploration", "contract monitor on observation-before/after + twin-level differential execution (one twin additionally receives read-only calls)",
-         "Every update of every update-heavy history is judged against the statement's contract (returned order = current state, only that order removed, unknown id / same-price price update without effect, amended display for Standard/PostOnly/Iceberg, never trades after removal); every history is re-run on a twin that also receives listing/snapshot/serialisation/statistics reads and all results and observations must agree.",
+         "Every update of every update-heavy history is judged against the statement's contract (returned order = current state, only that order removed, unknown id / same-price price update without effect, amended display for Standard/PostOnly/Iceberg, never trades after removal); every history is re-run on a twin that also receives listing/snapshot/serialisation/statistics reads, and on a blind twin that receives no read-only call at all (not even the monitor's observations); all results and states must agree.",
          "Transaction timestamps are excluded from the twin comparison (wall clock); listings are compared as multisets.", "4/C07"),
  "C10": ("H-seq", "exploration", "round-trip monitor at random points of seeded histories + adversarial inputs with lying aggregate fields",
          "At random points of histories (so after fills, replenishments, amends) the level is rebuilt through all seven routes and compared field for field; each constructor is also fed a snapshot / level data / JSON / text whose aggregate fields disagree with its orders (package route with a harness-computed checksum so only recomputation can save it).",
@@ -41,7 +41,7 @@ CHECKS = {
          "Every pop / find / remove / len / is_empty / to_vec of random call sequences is compared with a reference FIFO; constructors (from_vec, From<Vec>, FromStr of Display, serde) are checked for content and list order; a disagreeing pop is tolerated only with the exact K2 signature, never in sequences that do not re-push a removed id.",
          "An id is never pushed while it is queued (as the statement quantifies).", "4/C19"),
  "C09": ("tamper", "fault_enumeration", "fault injection into serialized snapshot packages with an 'error or identical content' oracle",
-         "For each package content: every single-character deletion / substitution / insertion over a 110-symbol alphabet at every offset, every truncation point, structural edits with the old checksum (scalar +-1, enum flips, order swap / drop / duplicate / retype / append, version, every checksum nibble, dropped members), a re-checksummed package under an unsupported version, and sampled fault pairs; a restore may only succeed with exactly the original content.",
+         "For each package content: every single-character deletion / substitution / insertion over a 110-symbol alphabet at every offset, every truncation point, structural edits with the old checksum (scalar +-1, enum flips, order swap / drop / duplicate / retype / append, version, every checksum nibble, dropped members), a re-checksummed package under an unsupported version, and sampled fault pairs; a restore may only succeed with exactly the original content, the supported version and the content's own checksum (judged on the library's view AND on the harness's own reading of the accepted text).",
          "Contents are generated (all order types, both id formats, boundary values, history-reached levels); multi-fault combinations beyond pairs are not enumerated.", "4/C09"),
  "C03": ("E1 (+E2)", "exploration", "controlled-schedule execution (baton scheduler on hooked shared-memory operations) + offline per-order linearizability check of the client-boundary history against an executable per-order model",
          "Tens of thousands of (program, schedule) pairs per run: real threads, one shared-memory step at a time, rw / PCT / complete one-preemption sweeps; at quiescence aggregates must equal sums, and for every order id some ordering of the successful operations (consistent with real time) must be explained by the statement's per-order machine and end in the listed state; the same checker over free-running E2 executions.",
@@ -107,6 +107,18 @@ def main():
              "kind_free_text": "single-threaded seeded history engine; observations through the public API before/after every operation; monitors in harness/src/mon.rs"},
             {"name": "E1", "path": "harness/src/sched.rs", "serves_properties": ["C03", "C08", "C12", "C13", "C14", "C15"],
              "kind_free_text": "baton scheduler on the verif-hooks wrappers: real threads, one shared-memory step at a time, seeded rw/PCT/delay strategies, stop-the-world inspection"},
+            {"name": "E2", "path": "harness/src/conc.rs", "serves_properties": ["C03", "C08", "C12", "C13", "C14", "C15"],
+             "kind_free_text": "free-running threads on real cores with seeded delay injection at the hooks, per-call step budget; small programs + long 'exchange' workload + queue hammer; same client-boundary checkers"},
+            {"name": "queue", "path": "harness/src/checks_queue.rs", "serves_properties": ["C19"],
+             "kind_free_text": "lock-step reference FIFO over seeded call sequences on the exported OrderQueue"},
+            {"name": "codec", "path": "harness/src/codec.rs", "serves_properties": ["C16", "C17", "C18", "C09"],
+             "kind_free_text": "value generators (boundary grids + random), text / JSON round-trip monitors, mutation engine over valid encodings, tamper enumeration on snapshot packages; crash supervisor with breadcrumbs for aborts that escape catch_unwind"},
+            {"name": "miri", "path": "harness/src/miri.rs", "serves_properties": ["C03", "C08", "C14"],
+             "kind_free_text": "thorough tier: cargo +nightly miri run -- mini, many seeds: UB / data-race detection + basic-block preemption + weak-memory emulation under the same history checkers"},
+            {"name": "tsan", "path": "harness/src/tsan.rs", "serves_properties": ["C08"],
+             "kind_free_text": "thorough tier: -Zsanitizer=thread -Zbuild-std build of the queue hammer + free-running programs (backstop for races inside DashMap / SegQueue on the driven paths)"},
+            {"name": "libfuzzer", "path": "harness/fuzz", "serves_properties": ["C18"],
+             "kind_free_text": "thorough tier: cargo +nightly fuzz run parse (one target, 30 entry points), artifacts re-confirmed in the plain harness"},
         ],
         "checks": checks,
         "notes": "fix: commits in /repo: " + ", ".join(repo_commits("fix:")) + ". Known findings: /verif/known_findings.json.",
